@@ -227,7 +227,7 @@ CHECKS["C15"] = {
     "technique": "runtime monitoring under controlled scheduling (shuttle runtime switched in under --cfg sentinel_verif_sched): deadlock = every unfinished task blocked (scheduler verdict), panic in any task, and a sequential health probe of all five managers after join, over every schedule with <= 1 preemption (quick; 2 capped in thorough) and randomised and PCT(1..3) schedules of pairs/triples of manager calls running next to entries",
     "rule": "scenarios = (a) for each of the 5 families all 28 unordered pairs of {load_rules A, load_rules B, load_rules_of_resource, append_rule, clear_rules, clear_rules_of_resource, get_*} on two threads plus a thread building/exiting two entries on the affected resource, rules preloaded; (b) the 28 circuit-breaker pairs again with a plain and with a 'querying' StateChangeListener (every callback calls get_rules, get_rules_of_resource, get_breakers_of_resource, flow::get_rules) while the entry thread completes with errors so that the breaker opens, probes and re-opens; (c) 20 cross-family pairs; (d) probes rejected by a flow rule (exit-hook rollback) racing with breaker removal, with and without listener; (e) 6 three-thread / two-step scenarios. 800 (quick) / 20000 (thorough) executions per scenario split over random and PCT depth 1-3; evaluations = executions, distinct_nontrivial = distinct schedules (hash of scheduling decisions) summed over scenarios",
     "level_text": "No sampled schedule of any scenario deadlocks, panics (incl. unwrap on a poisoned lock) or leaves a manager that does not accept and report a freshly loaded rule; sampled, not exhaustive.",
-    "level_note": "Custom generators that call back into their own manager are not exercised (the generator runs under the manager's non-reentrant mutexes by design; see DESIGN §5 C15). The real-OS-thread confirmation run with gdb stack sampling described in the design was not built; the scheduler's verdict is conclusive on its own.",
+    "level_note": "Custom generators (breaker strategy / flow control strategy Custom) that query read-only manager functions are exercised: querying the other families' managers must work; querying the generator's own manager, and two generators querying each other's managers, deadlock on the unchanged tree by construction (generators run under the manager locks) - three known findings, see KNOWN_FINDINGS.txt and DESIGN §9.3; hotspot generators (same structure) are not exercised. The real-OS-thread confirmation run with gdb stack sampling described in the design was not built; the scheduler's verdict is conclusive on its own.",
     "design_ref": "DESIGN.md §5 C15",
     "assumptions": ["runtime monitoring: the verdict covers only the executions this run produced", "hook H6 (vsync facade) and H7 (BreakerBase::drop is a no-op while unwinding, schedulable build only)", "shuttle models Mutex/RwLock/Once/atomics/lazy_static; std::sync::Arc is used as is"],
 }
